@@ -163,6 +163,14 @@ func c02Event(src, style, format, entry, alg string, interpolate bool, seed int6
 				venv[k] = v
 			}
 		}
+		// the verification env map is ONE map for all steps (as an agent would keep it); after the first pass every step is
+		// verified once more with it: verifying reads the map
+		for _, cs := range after {
+			if cs.Signature != nil {
+				signature.Verify(ctx, cs.Signature, keySetFor(alg, "signer"),
+					&signature.CommandStepWithInvariants{CommandStep: *cs, RepositoryURL: repo}, signature.WithEnv(venv))
+			}
+		}
 		steps := []any{}
 		for i, cs := range after {
 			s := obj{"hassig": cs.Signature != nil, "verified": false, "before": obj{"t": "z"}, "after": signedContentAV(cs)}
